@@ -503,7 +503,7 @@ META["C17"] = dict(
     gates={
         "mon.tree_comparisons": g(2000, 20000),
         "st.rule.argv-named": g(300, 3000), "st.rule.config-named": g(100, 1000), "st.rule.env-named": g(50, 500),
-        "st.env.on": g(500, 5000), "st.env.off-with-decoys": g(500, 5000),
+        "st.env.on": g(500, 5000), "st.env.off-with-decoys": g(500, 5000), "st.env.default-on-but-call-says-env=False": g(250, 2500),
         "st.rule.first-with-settings": g(50, 500), "st.rule.first-with-settings-of-several": g(30, 300),
         "st.rule.undeterminable-required": g(50, 500), "st.rule.undeterminable-optional": g(30, 300),
         "st.rule.argv-named+config-disagrees": g(30, 300),
@@ -533,7 +533,7 @@ META["C18"] = dict(
     rule="a case is (fault kind, fault position, sub-file features, multifile, overwrite, set of pre-existing files); distinct by "
     "hash; non-trivial = save was called on an accepted configuration.",
     gates={
-        "mon.failed_then_successful_save_sequences": g(100, 1000),
+        "mon.save_into_source_directory": g(200, 2000), "mon.failed_then_successful_save_sequences": g(100, 1000),
         "mon.saves.none": g(150, 1500), "mon.saves.invalid-value": g(300, 6000), "mon.saves.unserialisable-value": g(80, 1500),
         "mon.saves.oserror-at-write-open": g(150, 3000), "mon.saved_reparsed": g(80, 800), "mon.saves.unencodable-value": g(100, 1500),
         "st.target_spelling.fsspec-local": g(30, 300),
